@@ -101,78 +101,17 @@ func c01R1Patterns(h H) {
 
 func c01R2(h H) {
 	r := h.r
-	r.Rule("R2", "not-found runs no handler: in (*Server).serveHTTP the site chain's ServeHTTP is reachable only on the non-nil edge of the test on Match's site result; on the nil edge every return is preceded by WriteSiteNotFound (ACME challenge answer excepted) and no Handler.ServeHTTP is reachable; WriteSiteNotFound's status is 404, or 421 under ProtoMajor >= 2", 4)
+	r.Rule("R2", "not-found runs no handler, as a decision table (E10) of (*Server).serveHTTP with the trie, the ACME challenge handler, the not-found writer, trimPathPrefix and the chains as oracles: for {no site, a site at /, a site at /app} x {challenge answered or not} x {server with/without sites} — no site: the not-found response exactly once and no handler; a site: exactly its chain, once, its result returned, the prefix stripped exactly when it is not /; WriteSiteNotFound's status is 404, or 421 under ProtoMajor >= 2", 4)
 	fn := h.fn("R2", hs, "(*Server).serveHTTP")
 	if fn == nil {
 		return
 	}
-	isVhost := func(v ssa.Value) bool { return isResultOf(v, 0, "(*"+modPath+"/"+hs+".vhostTrie).Match") }
-	nonNil := nilEdges(fn, false, isVhost)
-	isNil := nilEdges(fn, true, isVhost)
-	if len(nonNil) == 0 {
-		r.Unresolve("R2", "no nil test on vhostTrie.Match's site result in serveHTTP")
-		return
-	}
-	chain := findCalls(fn, func(in ssa.Instruction) bool {
-		c := callOf(in)
-		return c.IsInvoke() && c.Method.Name() == "ServeHTTP" && strings.HasSuffix(c.Value.Type().String(), "httpserver.Handler")
-	})
-	if len(chain) == 0 {
-		r.Unresolve("R2", "no Handler.ServeHTTP invoke in serveHTTP")
-	}
-	for _, c := range chain {
-		r.Check(onlyVia(fn, c, nonNil), "R2", "httpserver.(*Server).serveHTTP/chain-invoke", c.Pos(),
-			"the site's handler chain is invoked only when Match returned a site")
-	}
-	// nil edge: from its target, every Return passes WriteSiteNotFound or the ACME true edge; no chain invoke reachable
-	for e := range isNil {
-		start := e.From.Succs[e.Idx]
-		if len(start.Instrs) == 0 {
-			continue
-		}
-		acmeTrue := guardEdges(fn, true, func(v ssa.Value) bool {
-			c, ok := v.(*ssa.Call)
-			return ok && (c.Call.IsInvoke() || c.Call.StaticCallee() != nil) && strings.Contains(calleeName(&c.Call), "HandleHTTPChallenge")
-		})
-		bad := false
-		var badPos token.Pos
-		sawChain := false
-		first := start.Instrs[0]
-		visit := func(in ssa.Instruction) bool {
-			if _, ok := in.(*ssa.Return); ok {
-				bad = true
-				badPos = in.Pos()
-				return false
-			}
-			for _, c := range chain {
-				if in == c {
-					sawChain = true
-				}
-			}
-			return true
-		}
-		c := cut{instr: func(in ssa.Instruction) bool { return isCallTo(in, modPath+"/"+hs+".WriteSiteNotFound") }, edges: acmeTrue}
-		// walk from the first instruction of the nil branch (inclusive)
-		if visit(first) && !(c.instr(first)) {
-			reach(fn, first, c, visit)
-		}
-		r.Check(!bad, "R2", "httpserver.(*Server).serveHTTP/not-found-branch", first.Pos(),
-			"every return of the no-site branch is preceded by WriteSiteNotFound (or the ACME challenge was answered)", "offending return at "+h.p.Pos(badPos))
-		// chain must be unreachable from nil edge at all
-		reachChain := false
-		reach(fn, first, cut{}, func(in ssa.Instruction) bool {
-			for _, c := range chain {
-				if in == c {
-					reachChain = true
-					return false
-				}
-			}
-			return true
-		})
-		_ = sawChain
-		r.Check(!reachChain, "R2", "httpserver.(*Server).serveHTTP/not-found-runs-no-handler", first.Pos(),
-			"no Handler.ServeHTTP invoke is reachable from the no-site branch")
-	}
+	// decided as a table (E10, c01ServeTable); the control-flow formulation was retired with round 6
+	nf, fd, other, n := c01ServeTable(h)
+	cases := sprintf("%d cases evaluated", n)
+	r.Check(fd == "" && other == "", "R2", "httpserver.(*Server).serveHTTP/chain-invoke", fn.Pos(), "when Match returned a site, exactly that site's handler chain runs, once, and its result is returned", cases, fd, other)
+	r.Check(nf == "" && other == "", "R2", "httpserver.(*Server).serveHTTP/not-found-branch", fn.Pos(), "when Match returned no site the not-found response is written once (or the ACME challenge was answered) and 0 returned", cases, nf, other)
+	r.Check(nf == "" && other == "", "R2", "httpserver.(*Server).serveHTTP/not-found-runs-no-handler", fn.Pos(), "no site's handler runs for a request that matched no site", cases, nf, other)
 	if w := h.fn("R2", hs, "WriteSiteNotFound"); w != nil {
 		for _, c := range findCalls(w, func(in ssa.Instruction) bool { return isCallTo(in, modPath+"/"+hs+".WriteTextResponse") }) {
 			st := callOf(c).Args[1]
